@@ -208,8 +208,16 @@ def judge_mask_ops(obs, mask, box, image, fill, copy, dmask, tag):
                                 wgt = int(wgt)          # plain numbers: the model's arithmetic must not wrap in a narrow unsigned type
                             g = rv[j, i]
                             if wgt > 0:
-                                e = (imv[y, x] if inside else fill) * wgt
-                                if not (g == e or (g != g and e != e)):
+                                basev = imv[y, x] if inside else fill
+                                if not np.isfinite(fill) and imv.dtype.kind in 'iub':
+                                    basev = np.float64(basev)          # a non-finite fill makes the cutout a float array (documented)
+                                e = basev * wgt
+                                alt = e
+                                if inside and not np.isfinite(fill) and imv.dtype.kind in 'iub' and data.dtype.kind in 'iub':
+                                    # integer image x integer weights, made float for the fill: the product may be formed exactly and
+                                    # rounded once, or from the rounded pixel value - both are "pixel x weight"
+                                    alt = np.float64(int(imv[y, x]) * int(wgt))
+                                if not (g == e or g == alt or (g != g and e != e)):
                                     ok, why = False, f'weight>0 pixel ({j},{i}): got {g!r}, expected {e!r}'
                                 elif inside and isinstance(e, (int, np.integer)) and np.isfinite(fill) and np.isfinite(g) and int(g) != int(e):
                                     ok, why = False, f'weight>0 pixel ({j},{i}): got {g!r}, expected the integer {int(e)}'
@@ -274,6 +282,8 @@ def weights(nrng, h, w, pattern):
         if d.size:
             d[nrng.random((h, w)) < 0.1] = np.nan
         return d
+    if pattern == 'counts':                   # integer weights are weights, not flags: coverage counts 0..3 (e.g. a sum of centre masks)
+        return nrng.integers(0, 4, (h, w)).astype(int)
     if pattern == 'int':                      # compound masks are integer arrays
         return (nrng.random((h, w)) < 0.6).astype(int)
     d = np.zeros((h, w))
@@ -352,7 +362,7 @@ def run_case(case, obs):
         if nrng.random() < 0.15:
             x0, y0 = 0, 0                      # the box at the image origin
         box = (x0, x0 + w, y0, y0 + h)
-        pat = ['ones', 'frac', 'int', 'checker', 'signed', 'bool', 'uint8'][nrng.integers(7)]
+        pat = ['ones', 'frac', 'int', 'checker', 'signed', 'bool', 'uint8', 'counts'][nrng.integers(8)]
         mask = RegionMask(weights(nrng, h, w, pat), RegionBoundingBox(*box))
         tag = pat
     shape = (int(nrng.integers(0, 48)), int(nrng.integers(0, 64)))
